@@ -1,4 +1,46 @@
-(* placeholder until Proofs/LebProofs.v lands: keeps the pipeline end-to-end *)
-From Coq Require Import List NArith.
-Require Import GV.Model.Leb GV.Model.Prim GV.Spec.LebSpec.
-Theorem c09_placeholder : True. Proof. exact I. Qed.
+(* Properties/C09.v — Primitive codecs: LEB128, sized integers and lengths are exact.
+   Only statements (`exact lemma`), non-vacuity examples and pins live here. *)
+From Coq Require Import List NArith ZArith Bool.
+From Coq.Strings Require Import Byte.
+Require Import GV.Base.Res GV.Base.Byt GV.Base.Ints.
+Require Import GV.Spec.LebSpec GV.Model.Leb GV.Model.Prim GV.Proofs.LebProofs.
+Import ListNotations.
+Local Open Scope N_scope.
+
+(* For EVERY byte string and both build modes the unsigned reader returns exactly the mathematical
+   value of the unique terminated prefix and the remaining bytes; it accepts exactly the encodings of
+   at most 10 bytes whose value fits u64 (zero-padded non-minimal ones included), rejects every other
+   terminated encoding with BadUnsignedLeb128, reports ten continuation bytes as BadUnsignedLeb128 and
+   a shorter unterminated input as UnexpectedEof. In particular it never panics and never wraps. *)
+Theorem uleb_exact : forall (dbg : bool) (bs : list byte),
+  read_uleb128 dbg bs =
+  match split_leb bs with
+  | None => if (10 <=? length bs)%nat then Err EBadUnsignedLeb128 else Err EUnexpectedEof
+  | Some (enc, rest) =>
+      if (length enc <=? 10)%nat && (uval enc <? 2 ^ 64) then Ok (uval enc, rest)
+      else Err EBadUnsignedLeb128
+  end.
+Proof. exact read_uleb128_exact. Qed.
+
+(* Same for the signed reader: two's complement at 7*|enc| bits, accepted iff it fits i64. *)
+Theorem sleb_exact : forall (dbg : bool) (bs : list byte),
+  read_sleb128 dbg bs =
+  match split_leb bs with
+  | None => if (10 <=? length bs)%nat then Err EBadSignedLeb128 else Err EUnexpectedEof
+  | Some (enc, rest) =>
+      if (length enc <=? 10)%nat && in_i64 (sval enc) then Ok (sval enc, rest)
+      else Err EBadSignedLeb128
+  end.
+Proof. exact read_sleb128_exact. Qed.
+
+(* non-vacuity / sanity: DWARF 4 figure 22/23 examples and the width boundary *)
+Example uleb_ex1 : read_uleb128 true [xe5; x8e; x26; xaa] = Ok (624485, [xaa]).
+Proof. vm_compute. reflexivity. Qed.
+Example sleb_ex1 : read_sleb128 true [xc0; xbb; x78] = Ok ((-123456)%Z, []).
+Proof. vm_compute. reflexivity. Qed.
+Example uleb_ex_max : read_uleb128 true [xff; xff; xff; xff; xff; xff; xff; xff; xff; x01] = Ok (2 ^ 64 - 1, []).
+Proof. vm_compute. reflexivity. Qed.
+Example uleb_ex_overflow : read_uleb128 false [xff; xff; xff; xff; xff; xff; xff; xff; xff; x02] = Err EBadUnsignedLeb128.
+Proof. vm_compute. reflexivity. Qed.
+Example sleb_ex_min : read_sleb128 true [x80; x80; x80; x80; x80; x80; x80; x80; x80; x7f] = Ok ((- 2 ^ 63)%Z, []).
+Proof. vm_compute. reflexivity. Qed.
